@@ -117,23 +117,26 @@ def h_containers(env, mapping, n, utd):
                     bad.append((f, nm, got, ref))
                 if list(v) != keep:
                     bad.append((f, nm, "the caller's vector was modified", list(v), keep))
-            if utd:
-                # the ordering flag as a numpy boolean / the integer 1 (results of numpy comparisons) means the same as True
-                for flag in (np.bool_(True), 1):
+            # the ordering flag as a numpy boolean / an integer / None (results of numpy comparisons, unset options) means the
+            # same as the Python bool of the same truth value
+            import warnings as _w
+            for flag in ((np.bool_(True), 1) if utd else (np.bool_(False), 0, None)):
+                with _w.catch_warnings():
+                    _w.simplefilter("ignore")
                     got = tuple(int(x) for x in get_mapped_vector(np.array(f, dtype=int), mapping, flag))
-                    if got != ref:
-                        bad.append((f, f"up_then_down={flag!r}", got, ref))
-        if utd:
+                if got != ref:
+                    bad.append((f, f"up_then_down={flag!r}", got, ref))
+        if True:
             from tangelo.toolboxes.operators import FermionOperator
             from tangelo.toolboxes.qubit_mappings.mapping_transform import fermion_to_qubit_mapping
             kw = dict(n_spinorbitals=n, n_electrons=2, spin=0) if mapping.lower() == "scbk" else dict(n_spinorbitals=n)
             for p in range(n):
                 op = FermionOperator(((p, 1), (p, 0))) + FermionOperator(((p, 1), ((p + 2) % n, 0)), 0.5) + FermionOperator((((p + 2) % n, 1), (p, 0)), 0.5)
-                ref_op = dict(fermion_to_qubit_mapping(op, mapping, up_then_down=True, **kw).terms)
-                for flag in (np.bool_(True), 1):
+                ref_op = dict(fermion_to_qubit_mapping(op, mapping, up_then_down=bool(utd), **kw).terms)
+                for flag in ((np.bool_(True), 1) if utd else (np.bool_(False), 0)):
                     got_op = dict(fermion_to_qubit_mapping(op, mapping, up_then_down=flag, **kw).terms)
                     if set(got_op) != set(ref_op) or any(abs(complex(got_op[k]) - complex(ref_op[k])) > 1e-12 for k in got_op):
-                        bad.append((p, f"operator encoder with up_then_down={flag!r} differs from up_then_down=True"))
+                        bad.append((p, f"operator encoder with up_then_down={flag!r} differs from up_then_down={bool(utd)}"))
     env.check_true(not bad, f"get_mapped_vector[{mapping}, up_then_down={utd}, n={n}] encodes every container type like the integer array",
                    detail=str(bad[:3]))
 
